@@ -529,9 +529,21 @@ func (h *handler1) handleConnect(ctx context.Context, snConnect *snPkts1.Connect
 		return h.snSend(snPkts1.NewConnack(snPkts1.RC_NOT_SUPPORTED))
 	}
 
-	if h.state.Get() == util.StateAwake {
+	// CONNECT of a sleeping client only signalizes its transition to the
+	// active state, see doc/specification-interpretation.md.
+	if state := h.state.Get(); state == util.StateAwake || state == util.StateAsleep {
 		h.setState(util.StateActive)
-		return h.snSend(snPkts1.NewConnack(snPkts1.RC_ACCEPTED))
+		if err := h.snSend(snPkts1.NewConnack(snPkts1.RC_ACCEPTED)); err != nil {
+			return err
+		}
+		// Deliver the packets buffered while the client was asleep.
+		for _, m2 := range h.pktBuffer {
+			if err := h.snSend(m2); err != nil {
+				return err
+			}
+		}
+		h.pktBuffer = nil
+		return nil
 	}
 
 	// The MQTT-SN specification does not explicitly forbid zero keepalive
@@ -785,7 +797,11 @@ func (h *handler1) handleMqttSn(ctx context.Context, pkt snPkts.Packet) error {
 				}
 			}
 			h.pktBuffer = nil
-			return h.snSend(snPkts1.NewPingresp())
+			err := h.snSend(snPkts1.NewPingresp())
+			// The client goes back to sleep after PINGRESP.
+			// See MQTT-SN specification v. 1.2, chapter 6.14.
+			h.setState(util.StateAsleep)
+			return err
 		} else {
 			mqPkt := mqPkts.NewControlPacket(mqPkts.Pingreq).(*mqPkts.PingreqPacket)
 			return h.mqttSend(mqPkt)
